@@ -190,7 +190,7 @@ def run_task(t):
         fin.check('every feasible path%s explored (%d paths; valid verdict on %d)' % ('' if maxflips is None else ' within %d flips' % maxflips, npaths, verdicts.get(1, 0)), True)
     else:
         fin._rec('path space explored', 'explore', 'unknown', detail='QF_FP unknown on a feasibility query')
-    fin.check('exactly one path is accepted (the all-valid one)', verdicts.get(1, 0) == 1, 'accepted on %d paths' % verdicts.get(1, 0))
+    fin.check('some explored path is accepted (vacuity guard: the all-valid inputs are reachable)', verdicts.get(1, 0) >= 1, 'accepted on %d paths' % verdicts.get(1, 0))
     out.append(fin)
     return out
 
